@@ -2,6 +2,7 @@ from typing import TYPE_CHECKING, Callable, Dict, List, NamedTuple, Optional, Se
 
 from django.template import Library
 from django.template.base import Parser, Token
+from django.utils.text import smart_split
 
 from django_components.app_settings import ContextBehaviorType, app_settings
 from django_components.library import is_tag_protected, mark_protected_tags, register_tag
@@ -471,7 +472,13 @@ class ComponentRegistry:
         # the component name and passing the rest to the actual tag function.
         def tag_fn(parser: Parser, token: Token) -> ComponentNode:
             # Let the TagFormatter pre-process the tokens
-            bits = token.split_contents()
+            try:
+                bits = token.split_contents()
+            except StopIteration:
+                # Django's `Token.split_contents()` runs off the end of its iterator when a bit starts
+                # with `_("` but does not end with `")`, e.g. a translated string followed by a filter
+                # (`_("x")|upper`). The bits are re-joined with spaces below, so the plain split is equivalent.
+                bits = list(smart_split(token.contents))
             formatter = get_tag_formatter(registry)
             result = formatter.parse([*bits])
             start_tag = formatter.start_tag(result.component_name)
